@@ -79,9 +79,27 @@ def x_db_keys():
         raise Broken("FindEmitterSequenceGap: `for it.Seek(%s); it.ValidForPrefix(%s); it.Next()` not found" % (var, var))
     out += "(* FindEmitterSequenceGap seeks and validates with  %s  *)\nDefinition db_gap_prefix_suffix : list byte := %s.\n" % (expr, gbytes_lit(suffix))
     info["gap_prefix"] = expr
+    # the rest of the gap scan the model transcribes: sequence read from the stored VAA, `first := false`, inclusive loop
+    for pat, what in ((r'v, err := vaa\.Unmarshal\(val\)', "values are decoded with vaa.Unmarshal"),
+                      (r'seqs\[v\.Sequence\] = true', "the sequence is taken from the decoded VAA"),
+                      (r'first := false\s', "`first := false` (firstSeq stays 0)"),
+                      (r'if k > lastSeq \{\s*lastSeq = k\s*\}', "lastSeq = maximum"),
+                      (r'for i := firstSeq; i <= lastSeq; i\+\+ \{\s*if !seqs\[i\] \{(?:\s*fmt\.Printf\([^\n]*\))?\s*resp = append\(resp, i\)', "inclusive loop appending the missing numbers")):
+        if not re.search(pat, gap):
+            raise Broken("FindEmitterSequenceGap: %s — shape not found" % what)
     if not (re.search(r'prefixBytes := vaaId\.GovernanceEmitterPrefixBytes\(\)', gov)
             and re.search(r'for it\.Seek\(prefixBytes\); it\.ValidForPrefix\(prefixBytes\); it\.Next\(\)', gov)):
         raise Broken("GetGovernanceVAABatch: scan with vaaId.GovernanceEmitterPrefixBytes() not found")
+    # how the batch recovers sequence and target chain from the key text
+    m1 = re.search(r'seqIndex := strings\.LastIndex\(keyStr, "/"\)(?:.|\n)*?sequence, err := strconv\.ParseUint\(keyStr\[seqIndex\+1:\], 10, (\d+)\)', gov)
+    m2 = re.search(r'targetChainIndex := strings\.LastIndex\(keyStr\[:seqIndex\], "/"\)(?:.|\n)*?targetChain, err := strconv\.ParseUint\(keyStr\[targetChainIndex\+1:seqIndex\], 10, (\d+)\)', gov)
+    if not m1 or not m2:
+        raise Broken("GetGovernanceVAABatch: LastIndex / ParseUint parsing of the key text not found")
+    if not re.search(r'if !contains\(sequence\) \{\s*continue\s*\}', gov) or not re.search(
+            r'TargetChain:\s*vaa\.ChainID\(targetChain\),\s*Sequence:\s*sequence,\s*VaaBytes:\s*vaaBytes,', gov):
+        raise Broken("GetGovernanceVAABatch: `if !contains(sequence) { continue }` / entry construction not found")
+    out += "Definition db_gov_seq_bits : Z := %s.\nDefinition db_gov_tc_bits : Z := %s.\n" % (m1.group(1), m2.group(1))
+    info["gov_parse_bits"] = [int(m1.group(1)), int(m2.group(1))]
     if not re.search(r'txn\.Set\(VaaIDFromVAA\(v\)\.Bytes\(\), b\)', sto):
         raise Broken("StoreSignedVAA: `txn.Set(VaaIDFromVAA(v).Bytes(), b)` not found")
     if not re.search(r'txn\.Get\(id\.Bytes\(\)\)', get):
@@ -92,6 +110,10 @@ def x_db_keys():
         raise Broken("publicrpcserver.go: validateBatchSize `if size > N` not found")
     out += "Definition rpc_max_batch : Z := %s.\n" % m.group(1)
     info["max_batch"] = int(m.group(1))
+    adm = rd("node/cmd/guardiand/adminserver.go")
+    if not re.search(r'resp\[i\] = fmt\.Sprintf\("%d/%s/%d/%d", req\.EmitterChain, emitterAddress, req\.TargetChain, v\)', adm) or not re.search(
+            r'emitterAddress := vaa\.Address\{\}\s*copy\(emitterAddress\[:\], b\)', adm):
+        raise Broken("adminserver.go: FindMissingMessages id rendering `%d/%s/%d/%d` / address copy not found")
     return out, info
 
 
